@@ -392,6 +392,9 @@ class FsRun:
             for lvl, dn in (op[4] if len(op) > 4 else []):
                 Y()
                 os.mkdir(r(paths[lvl] + "/" + dn))
+            for lvl, ln in (op[5] if len(op) > 5 else []):
+                Y()
+                os.symlink(self.topb + b"/linktarget", r(paths[lvl] + "/" + ln))
             for lvl, fn in op[3]:
                 Y()
                 with open(r(paths[lvl] + "/" + fn), "w"):
